@@ -118,14 +118,38 @@ def merge(results):
     return m
 
 
-def write_replay(prop, finding):
+def try_shrink(prop, finding, budget=45.0):
+    """Ask a worker for a smaller witness with the same key (bounded)."""
+    case = finding.get("case")
+    if not isinstance(case, dict) or case.get("kind") not in (
+            "graph", "astgraph", "program", "src", "dynsrc"):
+        return None
+    if os.environ.get("VMON_NO_SHRINK"):
+        return None
+    out = os.path.join(core.VERIF_DIR, "out")
+    os.makedirs(out, exist_ok=True)
+    try:
+        with tempfile.TemporaryDirectory(dir=out) as td:
+            r = run_worker(prop, {"kind": "shrink", "case": case, "key": finding.get("key"),
+                                  "budget": budget}, td, 0, budget * 3 + 60)
+        return r.get("shrunk")
+    except Exception:
+        return None
+
+
+def write_replay(prop, finding, shrink=False):
     d = os.path.join(core.VERIF_DIR, "replays", prop)
     os.makedirs(d, exist_ok=True)
     h = core.sha([finding.get("key"), finding.get("case")])
     path = os.path.join(d, h + ".json")
+    rec = {"property": prop, "finding": finding, "case": finding.get("case"),
+           "seed": finding.get("seed")}
+    if shrink:
+        small = try_shrink(prop, finding)
+        if small is not None:
+            rec["shrunk_case"] = small
     with open(path, "w") as f:
-        json.dump({"property": prop, "finding": finding, "case": finding.get("case"),
-                   "seed": finding.get("seed")}, f, indent=1, default=repr)
+        json.dump(rec, f, indent=1, default=repr)
     return os.path.relpath(path, core.VERIF_DIR)
 
 
@@ -178,7 +202,7 @@ def finish(check, tier, seed, m, wall):
         wit = next((f for f in own if f.get("key") == key), None)
         if wit is None:
             wit = {"key": key}
-        path = write_replay(prop, wit)
+        path = write_replay(prop, wit, shrink=len(viol_lines) < 3)
         viol_lines.append(f"VIOLATION property={prop} replay={path} key={key} cases={unknown[key]}")
     inconclusive_reasons = []
     if m["failed_shards"]:
